@@ -181,8 +181,7 @@ def judge (force : Nat) (st : St) (method path : Bytes) (hs : List (Bytes × Byt
         let fills := st.fetches.filter fun f => f.origin.body == s.body && f.origin.path == path
         let okFill := fills.any cacheableExchange
         let c10bad := if okFill then [] else ["bad:C10:uncacheable-response-served-to-a-later-request"]
-        let c10cls := (if Spec.C10.inClass_C10_a (hdrOf s.headers) then ["C10-a"] else []) ++
-                      (if Spec.C10.inClass_C10_b (hdrOf s.headers) then ["C10-b"] else [])
+        let c10cls := if Spec.C10.inClass_C10_b (hdrOf s.headers) then ["C10-b"] else []
         let c05bad := if o.framing == "complete" ∧ o.status == s.status then [] else ["bad:C05:hit-status-or-framing-wrong"]
         let c07bad := if c07Holds s o then [] else ["bad:C07:hit-headers-differ-from-the-stored-response"]
         let c07cls := if Spec.C07.goodHeader (hdrOf s.headers) then [] else ["C07-a"]
@@ -205,7 +204,7 @@ def converse (force : Nat) (st : St) (method path : Bytes) (hs : List (Bytes × 
     let storable := cacheableExchange f && !f.reqOrigin && inGate f.origin.status && f.origin.readErrAt.isNone &&
       (f.origin.body ≠ [] || f.method == b!"HEAD" || f.origin.status ≠ 200) &&
       Spec.C07.goodHeader (hdrOf f.origin.headers) &&
-      !(Spec.C10.inClass_C10_a (hdrOf f.origin.headers) || Spec.C10.inClass_C10_b (hdrOf f.origin.headers))
+      !Spec.C10.inClass_C10_b (hdrOf f.origin.headers)
     if storable ∧ Spec.C08.isFresh stored st.now force then ["bad:C08:origin-contacted-although-the-entry-is-fresh"] else []
 
 def hSysC : Handler := fun impl => do
